@@ -47,5 +47,8 @@ func (s *slice[T]) Len() int {
 func (s *slice[T]) Slice() []T {
 	s.lock.RLock()
 	defer s.lock.RUnlock()
-	return s.data
+	// Cap the result at its length: the spare capacity behind it is where the next
+	// Append writes, and an append by the caller to what it was handed must not
+	// land there.
+	return s.data[:len(s.data):len(s.data)]
 }
